@@ -67,8 +67,8 @@ def r1(ctx):
             rs = b.slice_op(t["args"][0], stop_at_calls=stop)
             if any(is_map_lookup(lt) for lb, lt in rs.calls) and "std::vec::Vec<" in t.get("resolved_full", ""):
                 yield VIOL("C19-R1", "%s/option-op:%s" % (fn, t["callee"].split("::")[-1]), "lookup result combined through `%s` (selection rule no longer the documented one)" % t["callee"], where=b.span_of_block(bi))
-    if n_idx < 10:
-        yield MISSING("C19-R1", "first-occurrence/floor", "only %d `[0]` selections found (10 confirmed by hand)" % n_idx)
+    if n_idx < 8:
+        yield MISSING("C19-R1", "first-occurrence/floor", "only %d `[0]` selections found (10 on the reviewed tree; >= 8 required)" % n_idx)
     else:
         missing = EXPECTED_KEYS - keys_seen
         if missing:
@@ -114,6 +114,15 @@ def r2(ctx):
 
     ki, vi = idx_of(i[1]["args"][1]), idx_of(i[1]["args"][2])
     if ki != [0] or vi != [1]:
+        # iterator form: key = it.next(), value = it.next() on one splitn(2, b'=') iterator, key taken first
+        def next_of(o):
+            sl_ = b.slice_op(o)
+            nx = [c_ for c_ in sl_.find_calls(r"Iterator::next$") if "SplitN" in c_[1].get("resolved_full", "")]
+            return nx
+        kn, vn = next_of(i[1]["args"][1]), next_of(i[1]["args"][2])
+        if len(kn) == 1 and len(vn) == 1 and kn[0][0] != vn[0][0] and b.dominates(kn[0][0], vn[0][0]):
+            ki, vi = [0], [1]
+    if ki != [0] or vi != [1]:
         yield VIOL("C19-R2", "from_auth_header/insert-kv", "insert(key, value) is not (parts[0], parts[1]): key idx %s value idx %s" % (ki, vi), where=b.span_of_block(i[0]))
     else:
         yield PASS("C19-R2", "from_auth_header/insert-kv", "insert(parts[0], parts[1])", [])
@@ -135,7 +144,7 @@ def r3(ctx):
     db, dt = gets["date"][0]
     ok = False
     for pl, vals, other, a in discr_guard_variants(b, db):
-        if pl["local"] == xt["dest"]["local"]:
+        if pl["local"] == xt["dest"]["local"] or root_local(b, {"copy": pl}) == xt["dest"]["local"] or (b.single_def(pl["local"]) and b.single_def(pl["local"])["kind"] == "assign" and op_local(b.single_def(pl["local"])["stmt"]["rv"].get("op", {})) == xt["dest"]["local"]):
             # on the None side: Some is value 1
             if 1 not in vals:
                 ok = True
@@ -158,8 +167,12 @@ def r4(ctx):
         raise AnchorMissing("lookups of `authorization` and `X-Amz-Algorithm` in get_auth_parameters")
 
     def which(place):
-        """'h' / 'q' if place's discriminant is the header / query lookup."""
+        """'h' / 'q' if place's discriminant is the header / query lookup result ITSELF (moves / tuple packing only):
+        a filtered or recomputed presence (e.g. "present and equal to AWS4-HMAC-SHA256") is not the documented rule."""
         sl = b.slice([place["local"]])
+        passive = [c for c in sl.callee_names() if not re.search(r"HashMap::<K, V, S, A>::get$|CanonicalRequest::(headers|query_parameters)$", c)]
+        if passive:
+            return None
         fs = place_fields(place)
         hs = [t for _, t in sl.calls if t["dest"]["local"] == gets["authorization"]]
         qs = [t for _, t in sl.calls if t["dest"]["local"] == gets["X-Amz-Algorithm"]]
@@ -183,12 +196,22 @@ def r4(ctx):
     # abstract evaluation over the four presence combinations
     outcomes = {}
     start = None
-    for a in sorted(b.live_blocks()):
+    for a in sorted(b.live_blocks(), key=lambda x: sum(1 for y in b.live_blocks() if b.dominates(y, x))):
         c = b.cond_of_switch(a)
         if c and c["kind"] == "discr" and which(c["place"]):
             start = a
             break
+        if c and c["kind"] == "call" and re.search(r"Option::<T>::is_(some|none)$", c["callee"]) and which({"local": root_local(b, c["term"]["args"][0]), "proj": []}):
+            start = a
+            break
     if start is None:
+        for a in sorted(b.live_blocks()):
+            c = b.cond_of_switch(a)
+            if c and c["kind"] == "discr":
+                sl = b.slice([c["place"]["local"]])
+                if any(t["dest"]["local"] in (gets["authorization"], gets["X-Amz-Algorithm"]) for _, t in sl.calls):
+                    yield VIOL("C19-R4", "get_auth_parameters/carrier-presence-filtered", "carrier presence is decided on a value computed from the lookup (through %s), not on the presence of the Authorization header / X-Amz-Algorithm parameter itself: e.g. a non-SigV4 X-Amz-Algorithm next to an Authorization header is no longer refused" % [x for x in sl.callee_names() if "HashMap" not in x][:4], where=b.span_of_block(a))
+                    return
         raise AnchorMissing("presence switch in get_auth_parameters")
     for h in (0, 1):
         for q in (0, 1):
@@ -200,6 +223,27 @@ def r4(ctx):
                 t = b.term(blk)
                 if t["k"] == "switch":
                     c = b.cond_of_switch(blk)
+                    if c and c["kind"] == "call" and re.search(r"Option::<T>::is_(some|none)$", c["callee"]):
+                        a0 = c["term"]["args"][0]
+                        pl0 = op_place(a0)
+                        od0 = b.origin_def(a0)
+                        w = which({"local": root_local(b, a0) if od0 is None or od0[0] != "place" else od0[1]["local"], "proj": od0[1]["proj"] if od0 and od0[0] == "place" else []}) if pl0 else None
+                        if w is None:
+                            res = ("unknown-switch", blk)
+                            break
+                        present = bool(h if w == "h" else q)
+                        val = present if c["callee"].endswith("is_some") else not present
+                        if c.get("neg"):
+                            val = not val
+                        nb = None
+                        for s_ in b.succ(blk):
+                            if b.truth_of_edge(blk, s_) is val:
+                                nb = s_
+                        if nb is None:
+                            res = ("unknown-switch", blk)
+                            break
+                        blk = nb
+                        continue
                     w = which(c["place"]) if c and c["kind"] == "discr" else None
                     if w is None:
                         res = ("unknown-switch", blk)
